@@ -434,7 +434,7 @@ PTRef Interpret::parseTerm(const ASTNode& term, LetRecords& letRecords) {
         try {
             tr = logic->mkConst(name);
         } catch (ApiException const & e) {
-            comment_formatted("While processing %s: %s", name, e.what());
+            notify_formatted(true, "While processing %s: %s", name, e.what());
         }
         return tr;
     }
